@@ -23,14 +23,6 @@ import Glom.Model.C16
 -/
 namespace Glom.C16
 
-def isStop : V → Bool
-  | .stop => true
-  | _ => false
-
-def isSkip : V → Bool
-  | .skip => true
-  | _ => false
-
 /-- a function's value (None where the Python call raises: runs with raising user
     functions are outside the property, see `wfRun`) -/
 def Fn.val (f : Fn) (x : V) : V :=
